@@ -360,6 +360,12 @@ func runHs13Script(idx int, sc *hs13Script) hsResult { //nolint:cyclop,gocognit,
 					side, estB, stB, flB, retxB, bkB, bkA = "s", sestB, sstB, sflB, sretxB, sbkB, sbk
 				}
 				n := h.emitted[side] - emB[side]
+				// ClientHello (with or without cookie), the server's flight 4 and the client's Finished are retransmittable by
+				// design; only the HelloRetryRequest (F2) is not.  The implementation's own flag is not trusted for that,
+				// except where an acknowledgement of the whole flight may have switched the timer off (the client's flight 5)
+				if stB == "Waiting" && (flB == "F1" || flB == "F3" || flB == "F4") {
+					retxB = true
+				}
 				switch {
 				case stB == "Waiting" && retxB && flB != "F0":
 					if len(noAlert) != 1 || noAlert[0] != flB {
